@@ -485,9 +485,10 @@ def _run_fanout(case: Dict[str, Any]) -> List[Dict[str, Any]]:
 # --------------------------------------------------------------------------------------------
 # redirect
 # --------------------------------------------------------------------------------------------
-RAW_PATHS = ["/", "/abc", "/abc%3C", "/a/b", "/a%20b/c", "//x"]
+# (incl. paths that begin with the same characters as a configured root_path: "/api/users", "/apix", "/a")
+RAW_PATHS = ["/", "/abc", "/abc%3C", "/a/b", "/a%20b/c", "//x", "/api/users", "/apix", "/api"]
 QUERIES = ["", "a=b", "a=b&c=d", "q=%2F%3F"]
-ROOT_PATHS = ["", "/api"]
+ROOT_PATHS = ["", "/api", "/a"]
 HOSTS = [  # (configured, host header)
     ("example.com", NONE), (NONE, "example.org"), ("example.com", "other.example:8000"),
     (NONE, "example.org:8443"), (NONE, NONE),
